@@ -109,6 +109,7 @@ type gRun struct {
 	boot     []int
 	retries  []string // "<row>:<ok>" per post-start lookup of a fail-once component
 	createdAt, firstAtt, succAtt map[int]int // post-start lookups: in which attempt a node completed / a looked-up node was first tried / succeeded
+	wiped        []string // slots of pre-filled holders that held a dummy before the start and hold nothing after it
 	spellingHits []string
 	startCreated map[int]bool // nodes whose creation completed during Run itself
 	inits        map[int]int  // how often Init ran on each node's registered instance, read at the very end
@@ -445,6 +446,10 @@ func runGraph(sc *gScen) *gRun {
 		}
 	}
 	if res.status == "ok" {
+		prefilled := map[int]bool{}
+		for _, pr := range sc.prefill {
+			prefilled[pr] = true
+		}
 		for i, n := range res.nodesObj {
 			bv := reflect.ValueOf(n.base()).Elem()
 			for _, sn := range slotNames {
@@ -452,6 +457,12 @@ func runGraph(sc *gScen) *gRun {
 					continue
 				}
 				res.fields[fmt.Sprintf("%d.%s", i, sn)] = readSlot(bv.FieldByName(sn), env)
+				if prefilled[i] {
+					fv := bv.FieldByName(sn)
+					if fv.Kind() == reflect.Slice && fv.Len() == 0 || (fv.Kind() == reflect.Pointer || fv.Kind() == reflect.Interface) && fv.IsNil() {
+						res.wiped = append(res.wiped, fmt.Sprintf("%d.%s", i, sn)) // held a dummy before the start, holds nothing now
+					}
+				}
 			}
 		}
 		av := reflect.ValueOf(a).Elem()
@@ -900,6 +911,13 @@ func (r *gRun) oracles() []string {
 	}
 	for _, row := range r.typeNameHits {
 		add("c01-type-name-lookup", "GetComponentByName(<default type name of node %s>) returned a component although node %s is registered under its custom name only and nothing else is registered under that type name", row, row)
+	}
+	// an optional point that cannot be satisfied is left UNTOUCHED: what the user put there before the start is still there
+	for _, k := range r.wiped {
+		if info, ok := r.slotInfo[k]; ok && strings.Contains(info[2], ",required=false") {
+			add("c07-optional-wiped", "the optional point %s held a user-supplied value before the start and was reset to nothing", k)
+			add("c09-optional-wiped", "the optional point %s held a user-supplied value before the start and was reset to nothing", k)
+		}
 	}
 	for _, row := range r.spellingHits {
 		add("c01-spelling-lookup", "GetComponentByName(<the name of node %s in another letter case or padded with blanks>) returned a component although nothing is registered under that spelling", row)
